@@ -115,6 +115,9 @@ def _d(rng):
 def ical_lines(rng, uid, token, kind=None, rich=True, summary=None):
     kind = kind or rng.choice(["VEVENT", "VEVENT", "VTODO", "VJOURNAL"])
     L = ["BEGIN:VCALENDAR", "VERSION:2.0", "PRODID:-//vf//gen//EN"]
+    if rich and rng.random() < 0.2:
+        # RFC 7986 calendar-level UID: not the UID of the calendar object resource
+        L.append("UID:" + rng.choice(["caluid-1", "caluid-2", "u1", "abc"]))
     use_tz = rich and rng.random() < 0.25
     if use_tz:
         L += VTIMEZONE_AMS
@@ -173,8 +176,14 @@ def render(lines, rng, crlf=None, do_fold=True, trailing=True):
     return s.encode("utf-8")
 
 
-def ical(rng, uid, token, **kw):
-    return render(ical_lines(rng, uid, token, **kw), rng)
+def ical(rng, uid, token, big=0, **kw):
+    lines = ical_lines(rng, uid, token, **kw)
+    if big:
+        # a large object whose distinguishing bytes come last (tail-only changes)
+        i = len(lines) - 2
+        lines.insert(i, "DESCRIPTION:" + ("lorem ipsum " * (big // 12)) + " tail " + token)
+        lines = [l for k, l in enumerate(lines) if not (l.startswith("DESCRIPTION:") and k != i)]
+    return render(lines, rng)
 
 
 # ---------------------------------------------------------------- vCard
@@ -204,8 +213,10 @@ def vcard_lines(rng, uid, token, fn=None, rich=True):
     return L
 
 
-def vcard(rng, uid, token, **kw):
+def vcard(rng, uid, token, big=0, **kw):
     lines = vcard_lines(rng, uid, token, **kw)
+    if big:
+        lines.insert(len(lines) - 1, "X-BIG:" + ("lorem ipsum " * (big // 12)) + " tail " + token)
     crlf = "\r\n" if rng.random() < 0.8 else "\n"
     trailing = rng.random() < 0.8
     return render(lines, rng, crlf=crlf, do_fold=True, trailing=trailing)
